@@ -47,8 +47,15 @@ def harness(tier, seed):
     rng = random.Random(seed + 2)
     n_inst = 60 if tier == "quick" else 600
     evals, distinct, viol, samples = 0, set(), [], []
-    for _ in range(n_inst):
-        inst = rand_instance(rng, max_items=rng.choice([3, 6, 10]))
+    from moptipyapps.binpacking2d.instance import Instance as _Inst
+    # a few fixed instances whose optimum uses exactly lower_bound_bins bins with a nearly empty last bin (the declared
+    # lower bounds are then attained) and whose item areas exceed the narrow storage type (int8): small item first, then
+    # items whose area does not fit the type
+    fixed = [_Inst("tight1", 24, 24, [[3, 3, 1], [12, 12, 2], [24, 12, 1]]),
+             _Inst("tight2", 20, 30, [[2, 2, 1], [10, 15, 4], [20, 15, 2]]),
+             _Inst("tight3", 16, 16, [[1, 1, 1], [16, 8, 3], [8, 8, 2]])]
+    for k_inst in range(n_inst + len(fixed)):
+        inst = fixed[k_inst] if k_inst < len(fixed) else rand_instance(rng, max_items=rng.choice([3, 6, 10]))
         if inst.bin_width * inst.bin_height > 4000:   # keep the column-by-column oracle cheap
             continue
         W, H, n = int(inst.bin_width), int(inst.bin_height), int(inst.n_items)
